@@ -57,7 +57,7 @@ def setup(mode):
 
 
 class Scenario:
-    def __init__(self, shape, codes, rev=False, token=None, total=0, reqs=None, premark=None, resubmit=None):
+    def __init__(self, shape, codes, rev=False, token=None, total=0, reqs=None, premark=None, resubmit=None, total2=0, reqs2=None):
         self.deps = SHAPES[shape] if isinstance(shape, str) else shape
         self.n = len(self.deps)
         self.codes = codes
@@ -65,6 +65,8 @@ class Scenario:
         self.token_kind = token  # None | "process" | "file"
         self.total = total
         self.reqs = reqs or [None] * self.n
+        self.total2 = total2
+        self.reqs2 = reqs2 or [None] * self.n
         self.premark = premark or [False] * self.n
         self.resubmit = resubmit  # index of a job re-submitted after it failed (or None)
         self.configs = [None] * self.n
@@ -96,6 +98,9 @@ class Scenario:
             self.token = ProcessCounterToken(self.total)
         elif self.token_kind == "file":
             self.token = self.launcher.connector.createtoken("tok", self.total)
+        self.token2 = None
+        if any(r is not None for r in self.reqs2):
+            self.token2 = ProcessCounterToken(self.total2)
         for i in range(self.n):
             w.codes[i] = self.codes[i]
         # main-thread program: submissions in order, then wait
@@ -114,6 +119,8 @@ class Scenario:
         object.__setattr__(cfg, "xv_key", i)
         if self.reqs[i] is not None:
             cfg.add_dependencies(self.token.dependency(self.reqs[i]))
+        if self.reqs2[i] is not None:
+            cfg.add_dependencies(self.token2.dependency(self.reqs2[i]))
         return cfg
 
     def _add_main_event(self):
@@ -214,6 +221,15 @@ class Scenario:
                     held = held + r
             if held > self.total:
                 self.violations.append("capacity exceeded")
+        if self.token2 is not None:
+            held2 = 0
+            for p in self.w.running_procs():
+                key = sched.jobkey(p.job)
+                key = key[1] if isinstance(key, tuple) else key
+                if self.reqs2[key] is not None:
+                    held2 = held2 + self.reqs2[key]
+            if held2 > self.total2:
+                self.violations.append("capacity exceeded (second token)")
 
     def _req_of(self, job):
         key = sched.jobkey(job)
@@ -278,7 +294,7 @@ def transitive_deps(deps, i):
 # ---------------------------------------------------------------- shared driver + oracles
 
 
-def drive(shard, total, rs, cs, rev, choices, token_kind="process"):
+def drive(shard, total, rs, cs, rev, choices, token_kind="process", total2=0, rs2=None):
     """Builds and runs the scenario described by the shard with the symbolic
     arguments; returns None when the arguments are outside the claimed domain"""
     shape, K = shard["shape"], shard["K"]
@@ -295,7 +311,16 @@ def drive(shard, total, rs, cs, rev, choices, token_kind="process"):
                 if not (1 <= rs[i] <= total):
                     return None
                 reqs[i] = rs[i]
-    sc = Scenario(shape, codes, rev=rev, token=(shard.get("token_kind") or token_kind) if tokmask else None, total=total, reqs=reqs, resubmit=shard.get("resubmit"))
+    reqs2 = [None] * n
+    if shard.get("token2"):
+        if total2 < 1:
+            return None
+        for i in range(n):
+            if shard["token2"][i]:
+                if not (1 <= rs2[i] <= total2):
+                    return None
+                reqs2[i] = rs2[i]
+    sc = Scenario(shape, codes, rev=rev, token=(shard.get("token_kind") or token_kind) if tokmask else None, total=total, reqs=reqs, resubmit=shard.get("resubmit"), total2=total2, reqs2=reqs2)
     sc.start()
     sc.run(choices, K, prefix=shard.get("prefix") or ())
     errs = sc.harness_errors()
